@@ -1486,9 +1486,6 @@ impl ArrayData {
 
     /// Validates the values stored within this [`ArrayData`] are valid
     /// without recursing into child [`ArrayData`]
-    ///
-    /// Does not (yet) check
-    /// 1. Union type_ids are valid see [#85](https://github.com/apache/arrow-rs/issues/85)
     pub fn validate_values(&self) -> Result<(), ArrowError> {
         match &self.data_type {
             DataType::Utf8 => self.validate_utf8::<i32>(),
@@ -1511,12 +1508,38 @@ impl ArrayData {
                 let child = &self.child_data[0];
                 self.validate_offsets_full::<i64>(child.len)
             }
-            DataType::Union(_, _) => {
-                // Validate Union Array as part of implementing new Union semantics
-                // See comments in `ArrayData::validate()`
-                // https://github.com/apache/arrow-rs/issues/85
-                //
-                // TODO file follow on ticket for full union validation
+            DataType::Union(fields, mode) => {
+                // Every type id must be declared by the union fields and, for
+                // dense unions, every offset must lie within the selected child
+                let type_ids = self.typed_buffer::<i8>(0, self.len)?;
+                let mut child_lens = [None; 128];
+                for (i, (type_id, _)) in fields.iter().enumerate() {
+                    child_lens[type_id as usize] = Some(self.child_data[i].len);
+                }
+                let offsets = match mode {
+                    UnionMode::Sparse => None,
+                    UnionMode::Dense => Some(self.typed_buffer::<i32>(1, self.len)?),
+                };
+                for (i, type_id) in type_ids.iter().enumerate() {
+                    let child_len = match usize::try_from(*type_id) {
+                        Ok(id) => child_lens[id],
+                        Err(_) => None,
+                    };
+                    let Some(child_len) = child_len else {
+                        return Err(ArrowError::InvalidArgumentError(format!(
+                            "Type id at position {i} invalid: {type_id} is not a type id of {}",
+                            self.data_type
+                        )));
+                    };
+                    if let Some(offsets) = offsets {
+                        let offset = offsets[i];
+                        if offset < 0 || offset as usize >= child_len {
+                            return Err(ArrowError::InvalidArgumentError(format!(
+                                "Offset at position {i} out of bounds: {offset} (child array with type id {type_id} has length {child_len})"
+                            )));
+                        }
+                    }
+                }
                 Ok(())
             }
             DataType::Dictionary(key_type, _value_type) => {
